@@ -19,7 +19,7 @@ ALL_INVARIANTS = {
 FLAG_INV = {
     "worker_budget": "WorkerBudget", "id_sequence": "IdsInSequence",
     "stop_not_running": "LifeCycle", "pause_not_running": "LifeCycle", "start_after_end": "LifeCycle",
-    "resume_not_paused": "ResumeOnlyPaused",
+    "resume_not_paused": "ResumeOnlyPaused", "unexpected_exception": "LifeCycle",
     "protocol_add": "CallbackProtocol", "protocol_remove": "CallbackProtocol", "protocol_complete": "CallbackProtocol",
     "protocol_error": "CallbackProtocol", "error_after_remove": "CallbackProtocol", "protocol_resume": "CallbackProtocol",
     "result_outside_run": "CallbackProtocol", "remove_without_decision": "CallbackProtocol",
@@ -36,7 +36,7 @@ FLAG_INV = {
     "stop_without_decision": "StopPauseDecided", "pause_without_decision": "StopPauseDecided",
 }
 PROP_FLAGS = {p: sorted(f for f, i in FLAG_INV.items() if i in invs) for p, invs in ALL_INVARIANTS.items()}
-PROP_FLAGS["C13"] = sorted(set(PROP_FLAGS["C13"]) | {"protocol_error"})   # FailureNotifiedOnce
+PROP_FLAGS["C13"] = sorted(set(PROP_FLAGS["C13"]) | {"protocol_error", "unexpected_exception"})   # FailureNotifiedOnce
 
 
 def mc_configs(tier):
